@@ -93,9 +93,12 @@ CLAIMED = {
     "C17": ("Theorems for ALL targets, families, constraints, arguments and draws: objective = log p(merged choices) - log q(z) (C17_elbo_value); equal to log p(x) for every draw when q is the "
             "exact posterior (C17_elbo_tight); on overlapping addresses the family's choice wins in the merge; optimize_vi applies params + lr*gradient at every iteration, the history holds every "
             "iterate and the final parameters are the last one, for every gradient estimator, learning rate and iteration count (C17_vi_rule, induction over iterations). "
-            "NOT mechanised (partial): unbiasedness of the objective and of its gradient (C11's theorem for finite flip programs), the Jensen bound, the two Gaussian families.",
+            "For latents of finite support the expected objective lies below the log evidence, sum_i q_i ln(p_i/q_i) <= ln sum_i p_i, with equality at the exact posterior "
+            "(C17_elbo_below_log_evidence, C17_elbo_tight_at_posterior_real; Gibbs' inequality over the reals). "
+            "NOT mechanised (partial): unbiasedness of the objective and of its gradient (C11's theorem for finite flip programs), the bound for continuous latents, the two Gaussian families.",
             "Trusted: Coq kernel; model coq/Model/Vi.v on top of the GFI model; harness/worker_vi.py builds the family from a REINFORCE primitive with scripted outcomes (public reinforce()), "
-            "values divided by ln 2; optimize_vi compared on deterministic quadratic objectives with tolerance 1e-4. No axioms.",
+            "values divided by ln 2; optimize_vi compared on deterministic quadratic objectives with tolerance 1e-4. Axioms: none for the program-level theorems; the two real-valued bound theorems "
+            "depend on the standard library's real-number axioms (sig_not_dec, sig_forall_dec, functional_extensionality_dep, classic).",
             "Coq proof (corollaries of the GFI theorems; induction over iterations) + differential correspondence (vm_compute)", "7/C17"),
     "C20": ("HMM, fully mechanised for every number of states, every table and every observation sequence of length >= 1 (exact rationals): the forward message is the sum of the joint over "
             "all earlier state paths, the marginal likelihood equals brute-force summation over all state sequences, the filtering distribution is normalised, compute_sequence_log_prob "
@@ -143,7 +146,9 @@ CLAIMED = {
             "particle i gets floor(N w_i) or ceil(N w_i) copies (exact integer model of cumsum/searchsorted; proof by counting positions below each cumulative weight); zero weight => no copies; "
             "resample: each output particle is the whole input particle at its index, weights reset, diagnostics = pre-resampling normalised weights, exp(lml) unchanged (field identity in Q). "
             "Unbiasedness (C12_systematic_unbiased_on_grid): over the uniform grid of c*sum(w) offsets the copies of particle i sum to c*N*w_i, for every weight vector, N and resolution c "
-            "(the continuous expectation is the limit of these exact Riemann averages, not itself mechanised).",
+            "(the continuous expectation is the limit of these exact Riemann averages, not itself mechanised); every systematic index names an input particle (C12_systematic_indices_in_range). "
+            "Categorical method, modelled as N independent draws with probabilities w_i/W: E[copies_i] = N w_i / W and the resampled equal-weight average of any test function has the expectation of "
+            "the weighted average before resampling (C12_categorical_expected_copies, C12_categorical_estimate_preserved; exact finite expectations over Qc).",
             "Trusted: Coq kernel; hand model coq/Model/Resample.v of systematic_resample/resample_vectorized_trace/resample/log_marginal_likelihood over exact integers/rationals; "
             "correspondence harness/worker_resample.py scripts the offset (monkeypatching smc.uniform), skips exact float ties (the total weight is not one: offsets at the ends of (0,1) are scripted on weight vectors whose float32 cumulative sum ends below 1, and every index must name an input particle), compares indices exactly and lml within 5e-5; the float32 cumulative sum itself is modelled (exact arithmetic), not verified; "
             "the diagnostic-weight clause is compared in the harness with tolerance 1e-5. No axioms.",
